@@ -72,48 +72,123 @@ Definition watched (cfg : config) (l : rawlog) : bool :=
 Definition watched_events (cfg : config) (ch : chain) (k : N) : list ev :=
   map (fun l => (k, l_idx l)) (filter (watched cfg) (ch k)).
 
+(* ---- outcomes of the numbered RPC calls (eth_getLogs, eth_getBlockByNumber(n)) ---- *)
+(* One entry per call, in call order (all these calls are made by the single downloader goroutine); calls beyond the
+   list succeed.  RErr = any error that is none of the following; RDeadline = an error wrapping context.DeadlineExceeded;
+   RNotFound = ethereum.NotFound; RCanceled = an error wrapping context.Canceled WHILE THE DOWNLOADER'S CONTEXT IS ALIVE;
+   RMismatch = the call succeeds but the header returned has a hash different from the block hash of the logs
+   (only meaningful for the header query of getEventsByBlockRangeWithRetry; a plain success elsewhere). *)
+Inductive cres := ROk | RErr | RDeadline | RNotFound | RCanceled | RMismatch.
+Definition retried (r : cres) : bool := match r with RErr | RDeadline | RNotFound => true | _ => false end.
+
+(* GetLogs, the FilterLogs loop: context.Canceled => `return nil`; every other error => rh.Handle and try again *)
+Fixpoint filter_logs_call (calls : list cres) : bool * list cres :=
+  match calls with
+  | [] => (true, [])
+  | r :: t => if retried r then filter_logs_call t
+              else (match r with RCanceled => false | _ => true end, t)
+  end.
+(* GetBlockHeader: context.Canceled => (_, true); NotFound => sleep, again; other errors => rh.Handle, again *)
+Inductive hres := HOk | HMismatch | HCanceled.
+Fixpoint header_call (calls : list cres) : hres * list cres :=
+  match calls with
+  | [] => (HOk, [])
+  | r :: t => if retried r then header_call t
+              else (match r with RCanceled => HCanceled | RMismatch => HMismatch | _ => HOk end, t)
+  end.
+
+(* getEventsByBlockRangeWithRetry, the loop over logs with its RPC calls: the header of a block is fetched when the block
+   is opened; canceled => `return nil`; hash mismatch => give up or retry the WHOLE range (blocks collected so far dropped) *)
+Inductive gres := GDone (bs : list (N * list ev)) (c : list cres) | GRetry (c : list cres) | GNil (c : list cres).
+Fixpoint group_rpc_from (cur : N * list ev) (logs : list (N * rawlog)) (calls : list cres) : gres :=
+  match logs with
+  | [] => GDone [cur] calls
+  | kl :: t => if fst cur <? fst kl then
+                 match header_call calls with
+                 | (HOk, c) => match group_rpc_from (fst kl, [ev_of kl]) t c with
+                               | GDone bs c' => GDone (cur :: bs) c'
+                               | r => r
+                               end
+                 | (HMismatch, c) => GRetry c
+                 | (HCanceled, c) => GNil c
+                 end
+               else group_rpc_from (fst cur, snd cur ++ [ev_of kl]) t calls
+  end.
+Definition group_rpc (logs : list (N * rawlog)) (calls : list cres) : gres :=
+  match logs with
+  | [] => GDone [] calls
+  | kl :: t => match header_call calls with
+               | (HOk, c) => group_rpc_from (fst kl, [ev_of kl]) t c
+               | (HMismatch, c) => GRetry c
+               | (HCanceled, c) => GNil c
+               end
+  end.
+(* budget = MaxRetryCountBlockHashMismatch - retryCount; at budget 0 (retryCount >= 5) a mismatch makes the function
+   `return nil`, which the caller cannot tell from "no logs".  Third component: number of successful eth_getLogs calls. *)
+Definition max_retry_hash_mismatch : nat := 5.
+Fixpoint events_rpc (budget : nat) (cfg : config) (ch : chain) (a b : N) (calls : list cres)
+  : list (N * list ev) * list cres * nat :=
+  let '(ok, c1) := filter_logs_call calls in
+  let logs := if ok then get_logs cfg ch a b else [] in
+  let nq := if ok then 1%nat else 0%nat in
+  match group_rpc logs c1 with
+  | GDone bs c => (bs, c, nq)
+  | GNil c => ([], c, nq)
+  | GRetry c => match budget with
+                | O => ([], c, nq)
+                | S b' => let '(bs, c', n') := events_rpc b' cfg ch a b c in (bs, c', (nq + n')%nat)
+                end
+  end.
+
 (* ---- Download ---- *)
 Inductive phase := PInit | PWait | PFin.
-Record dl_state := St { s_from : N; s_to : N; s_last : N; s_reach : bool; s_phase : phase }.
+Record dl_state := St { s_from : N; s_to : N; s_last : N; s_reach : bool; s_phase : phase; s_calls : list cres }.
 Record tick := { t_tip : N; t_fin : N; t_err : bool }.
    (* t_tip: header number answered to HeaderByNumber(blockFinality), t_fin: to HeaderByNumber(finalizedBlockType),
-      t_err: the call fails instead *)
+      t_err: the call fails instead (whatever the error: WaitForNewBlocks retries, Download `continue`s) *)
 
-Definition dl_init (from0 : N) : dl_state := St from0 0 0 false PInit.
+Definition dl_init (from0 : N) (calls : list cres) : dl_state := St from0 0 0 false PInit calls.
 
 (* top of the `for`: decides between WaitForNewBlocks and going on; `reachTop = false` follows in both cases *)
-Definition loop_top (from to last : N) (reach : bool) : dl_state :=
-  if (last <? from) || (reach && (last <=? to)) then St from to last reach PWait
-  else St from to last false PFin.
+Definition loop_top (from to last : N) (reach : bool) (calls : list cres) : dl_state :=
+  if (last <? from) || (reach && (last <=? to)) then St from to last reach PWait calls
+  else St from to last false PFin calls.
 
 (* reportBlocks / reportEmptyBlock *)
 Definition mk_block (cfg : config) (lf : N) (b : N * list ev) : dblock :=
   {| b_num := fst b; b_events := snd b; b_fin := c_finflag cfg && (fst b <=? lf) |}.
 Definition empty_block (cfg : config) (lf n : N) : dblock :=
   {| b_num := n; b_events := []; b_fin := c_finflag cfg && (n <=? lf) |}.
+(* reportEmptyBlock: GetBlockHeader first; if that reports "canceled" nothing is sent *)
+Definition report_empty (cfg : config) (lf n : N) (calls : list cres) : list dblock * list cres :=
+  match header_call calls with
+  | (HCanceled, c) => ([], c)
+  | (_, c) => ([empty_block cfg lf n], c)
+  end.
 Definition last_num (blocks : list (N * list ev)) : N := fst (last blocks (0, [])).
 
 (* the loop body after GetLastFinalizedBlock succeeded with header number [fin] *)
-Definition dl_body (cfg : config) (ch : chain) (from to last fin : N) : dl_state * list dblock :=
+Definition dl_body (cfg : config) (ch : chain) (from to last fin : N) (calls : list cres) : dl_state * list dblock :=
   let chunk := c_chunk cfg in
   let lf := N.min last fin in                                   (* lastFinalizedBlockNumber *)
   let reach := last <=? to in                                   (* toBlock >= lastBlock *)
   let req := if reach then last else to in                      (* requestToBlock *)
-  let blocks := get_events_by_block_range cfg ch from req in
+  let '(blocks, c1, _) := events_rpc max_retry_hash_mismatch cfg ch from req calls in
   if req <=? lf then                                            (* safe zone *)
-    let extra := match blocks with
-                 | [] => [empty_block cfg lf req]
-                 | _ => if last_num blocks <? req then [empty_block cfg lf req] else []
-                 end in
+    let '(extra, c2) := match blocks with
+                        | [] => report_empty cfg lf req c1
+                        | _ => if last_num blocks <? req then report_empty cfg lf req c1 else ([], c1)
+                        end in
     let from' := u64 (req + 1) in
-    (loop_top from' (u64 (from' + chunk)) last reach, map (mk_block cfg lf) blocks ++ extra)
+    (loop_top from' (u64 (from' + chunk)) last reach c2, map (mk_block cfg lf) blocks ++ extra)
   else match blocks with
        | [] => if from <=? lf then
+                 let '(extra, c2) := report_empty cfg lf lf c1 in
                  let from' := u64 (lf + 1) in
-                 (loop_top from' (u64 (from' + chunk)) last reach, [empty_block cfg lf lf])
-               else (loop_top from (u64 (to + chunk)) last reach, [])
+                 (loop_top from' (u64 (from' + chunk)) last reach c2, extra)
+               else (loop_top from (u64 (to + chunk)) last reach c1, [])
        | _ => let from' := u64 (last_num blocks + 1) in
-              (loop_top from' (u64 (from' + chunk)) last reach, map (mk_block cfg lf) blocks)
+              (loop_top from' (u64 (from' + chunk)) last reach c1, map (mk_block cfg lf) blocks)
        end.
 
 (* one tag query of the real code = one step *)
@@ -122,14 +197,14 @@ Definition dl_step (cfg : config) (ch : chain) (s : dl_state) (t : tick) : dl_st
   match s_phase s with
   | PInit =>     (* lastBlock := d.WaitForNewBlocks(ctx, 0); toBlock := fromBlock + chunk *)
       if t_err t || negb (0 <? t_tip t) then (s, [])
-      else (loop_top (s_from s) (u64 (s_from s + chunk)) (t_tip t) false, [])
+      else (loop_top (s_from s) (u64 (s_from s + chunk)) (t_tip t) false (s_calls s), [])
   | PWait =>     (* lastBlock = d.WaitForNewBlocks(ctx, lastBlock); if fromBlock-toBlock < chunk {toBlock = fromBlock+chunk} *)
       if t_err t || negb (s_last s <? t_tip t) then (s, [])
       else let to' := if u64_sub (s_from s) (s_to s) <? chunk then u64 (s_from s + chunk) else s_to s in
-           (St (s_from s) to' (t_tip t) false PFin, [])
+           (St (s_from s) to' (t_tip t) false PFin (s_calls s), [])
   | PFin =>      (* GetLastFinalizedBlock; on error `continue` (reachTop is already false) *)
-      if t_err t then (loop_top (s_from s) (s_to s) (s_last s) false, [])
-      else dl_body cfg ch (s_from s) (s_to s) (s_last s) (t_fin t)
+      if t_err t then (loop_top (s_from s) (s_to s) (s_last s) false (s_calls s), [])
+      else dl_body cfg ch (s_from s) (s_to s) (s_last s) (t_fin t) (s_calls s)
   end.
 
 Fixpoint dl_run (cfg : config) (ch : chain) (s : dl_state) (ticks : list tick) : dl_state * list dblock :=
@@ -139,16 +214,19 @@ Fixpoint dl_run (cfg : config) (ch : chain) (s : dl_state) (ticks : list tick) :
                  let '(s2, out2) := dl_run cfg ch s1 rest in (s2, out1 ++ out2)
   end.
 
-(* the eth_getLogs ranges asked, one per completed loop body (observable at the RPC client) *)
-Definition query_of (s : dl_state) (t : tick) : list (N * N) :=
+(* the successful eth_getLogs calls (observable at the RPC client): one per attempt of getEventsByBlockRangeWithRetry
+   whose FilterLogs call went through *)
+Definition query_of (cfg : config) (ch : chain) (s : dl_state) (t : tick) : list (N * N) :=
   match s_phase s with
-  | PFin => if t_err t then [] else [(s_from s, if s_last s <=? s_to s then s_last s else s_to s)]
+  | PFin => if t_err t then []
+            else let req := if s_last s <=? s_to s then s_last s else s_to s in
+                 repeat (s_from s, req) (snd (events_rpc max_retry_hash_mismatch cfg ch (s_from s) req (s_calls s)))
   | _ => []
   end.
 Fixpoint dl_queries (cfg : config) (ch : chain) (s : dl_state) (ticks : list tick) : list (N * N) :=
   match ticks with
   | [] => []
-  | t :: rest => query_of s t ++ dl_queries cfg ch (fst (dl_step cfg ch s t)) rest
+  | t :: rest => query_of cfg ch s t ++ dl_queries cfg ch (fst (dl_step cfg ch s t)) rest
   end.
 
 (* ---- EVMDriver: Sync loop + handleNewBlock ---- *)
@@ -165,10 +243,16 @@ Definition drv_run (d : drv_state) (bs : list dblock) : drv_state := fold_left h
 
 (* Sync: the downloader is started at lastProcessedBlock+1 (uint64) *)
 Definition sync_from (lp0 : N) : N := u64 (lp0 + 1).
-Definition sync_run (cfg : config) (ch : chain) (lp0 : N) (ticks : list tick) : dl_state * list dblock * drv_state :=
-  let '(s, out) := dl_run cfg ch (dl_init (sync_from lp0)) ticks in (s, out, drv_run (drv_init lp0) out).
+Definition sync_run (cfg : config) (ch : chain) (lp0 : N) (calls : list cres) (ticks : list tick)
+  : dl_state * list dblock * drv_state :=
+  let '(s, out) := dl_run cfg ch (dl_init (sync_from lp0) calls) ticks in (s, out, drv_run (drv_init lp0) out).
 
 (* ---- hypotheses of the theorems (definitions only) ---- *)
+(* no numbered RPC call fails with context.Canceled while the downloader is alive, and the node answers a header whose
+   hash differs from the logs' block hash at most MaxRetryCountBlockHashMismatch times in the whole run *)
+Fixpoint mismatches (c : list cres) : nat :=
+  match c with [] => O | RMismatch :: t => S (mismatches t) | _ :: t => mismatches t end.
+Definition calls_ok (c : list cres) : Prop := ~ In RCanceled c /\ (mismatches c <= max_retry_hash_mismatch)%nat.
 (* every successful tip answer is at most B, and the node is not behind the block the download starts from *)
 Definition tips_ok (B from0 : N) (ticks : list tick) : Prop :=
   forall t, In t ticks -> t_err t = false -> t_tip t <= B /\ (0 < t_tip t -> from0 <= t_tip t + 1).
